@@ -623,8 +623,12 @@ where
                     }
                 }
             }
-            Instruction::Next => todo!(),
-            Instruction::Last => todo!(),
+            // `Next` and `Last` are not implemented (the compiler never emits
+            // them); reject them like any other invalid instruction instead of
+            // panicking on hand-built or corrupted bytecode.
+            Instruction::Next | Instruction::Last => {
+                return Err(self.err(MachineErrorType::InvalidInstruction));
+            }
             Instruction::Call(t) => match t {
                 Target::Unresolved(label) => {
                     return Err(self.err(MachineErrorType::UnresolvedTarget(label)));
